@@ -1,61 +1,79 @@
-(* Properties_C01.v — legal move generation is exact.   STATUS: PARTIAL.
-   Full statement (the target; NOT proved here, decided by the correspondence against the specification's
-   [spec_moves] on every explored position):
-     forall p dfrc, wf p -> legal_consistent dfrc (abs p) = true ->
-       Permutation (legal_moves p) (spec_moves (abs p))       (none missing, none extra, none twice, six labels)
-   Proved below, for EVERY position (no hypothesis), about the generated lists themselves:
-     - legal_moves = legal_captures ++ legal_noncaptures; the vector overloads append to any caller's vector;
-       count_moves is the length; is_legal m <-> membership
-     - every emitted move carries consistent labels (promotions are pawn moves, castling moves are king moves
-       onto the stored rook square, double pushes land on the fourth/fifth rank), captures are exactly the
-       capturing types, non-captures exactly the others;
-     - MILESTONE 1: check_evasions() = exactly the legal king steps of the rules (on legal-consistent positions);
-     - MILESTONE 2: in DOUBLE CHECK the full statement holds: legal_moves p has no repetition and exactly the members
-       of spec_moves (abs p). *)
+(* Properties_C01.v — legal move generation is exact.   STATUS: FULL (for the model M).
+   THE statement (proved below as C01_legal_moves_exact, no axioms): for every position p that satisfies the
+   representation invariant (wf), whose stored castling-rook squares are squares (rooks_ok) and whose abstraction is
+   legal-consistent in either mode,
+       NoDup (legal_moves p)  /\  forall m, In m (legal_moves p) <-> In m (spec_moves (abs p))
+   — none missing, none extra, none twice, all six labels right (a move is the record of its six fields; spec_moves is
+   the mailbox rule set of Spec/Rules.v: pseudo-legal candidates filtered by "own king not attacked afterwards").
+   Proof structure: double check (LegalFacts.double_check_exact); otherwise the generators split into named parts
+   (LegalCore.legal_moves_parts) and each class of move is exact: king steps (KingFacts), knights/bishops/rooks/queens
+   incl. pinned sliders (PinScanFacts, PieceExact, OfficerExact), pawn pushes and captures (PawnExact), en passant
+   (EpExact), castling incl. Chess960 (CastleExact); no repetition (NoDupFacts); assembly LegalExact + LegalFinal.
+   The domain is closed under legal play (C01_domain_closed, LcStep), so the statement holds at every position reachable
+   by legal moves from a legal-consistent start.
+   Also, for EVERY position (no hypothesis): legal_moves = captures ++ non-captures; the vector overloads append;
+   count_moves is the length; is_legal m <-> membership; labels and capture/non-capture types of emitted moves. *)
 From Coq Require Import NArith List Bool.
-From LC Require Import Bits Types BitboardModel MoveModel PositionModel MovegenModel MakeFacts MovegenFacts Spec.Rules Refine.Abs Refine.MakeAbs KingFacts LegalFacts.
+From LC Require Import Bits Types BitboardModel MoveModel PositionModel MovegenModel MakeFacts MovegenFacts Spec.Rules Refine.Abs Refine.MakeAbs KingFacts LegalFacts MakeModel LegalFinal.
 Import ListNotations.
 Local Open Scope N_scope.
 
-Theorem C01_partial_split : forall p, legal_moves p = legal_captures p ++ legal_noncaptures p.
+Theorem C01_legal_moves_exact : forall dfrc p, wf p = true -> rooks_ok p -> legal_consistent dfrc (abs p) = true ->
+  NoDup (legal_moves p) /\ forall m, In m (legal_moves p) <-> In m (spec_moves (abs p)).
+Proof. exact legal_moves_exact. Qed.
+Theorem C01_permutation : forall dfrc p, wf p = true -> rooks_ok p -> legal_consistent dfrc (abs p) = true ->
+  Permutation.Permutation (legal_moves p) (spec_moves (abs p)).
+Proof. exact legal_moves_permutation. Qed.
+Theorem C01_count_moves_rules : forall dfrc p, wf p = true -> rooks_ok p -> legal_consistent dfrc (abs p) = true ->
+  count_moves p = N.of_nat (length (spec_moves (abs p))).
+Proof. exact count_moves_rules. Qed.
+(* the hypotheses are an invariant of legal play: every move of the generated list leads to a position of the domain,
+   and the model's successor is the rules' successor *)
+Theorem C01_domain_closed : forall K dfrc p m, wf p = true -> rooks_ok p -> legal_consistent dfrc (abs p) = true -> In m (legal_moves p) ->
+  wf (makemove K p m) = true /\ rooks_ok (makemove K p m) /\ legal_consistent dfrc (abs (makemove K p m)) = true /\
+  abs (makemove K p m) = apply_move (abs p) m.
+Proof. exact domain_closed. Qed.
+
+Theorem C01_split : forall p, legal_moves p = legal_captures p ++ legal_noncaptures p.
 Proof. exact legal_moves_split. Qed.
-Theorem C01_partial_into_appends : forall p v, legal_moves_into p v = v ++ legal_moves p.
+Theorem C01_into_appends : forall p v, legal_moves_into p v = v ++ legal_moves p.
 Proof. exact legal_moves_into_appends. Qed.
-Theorem C01_partial_captures_into_appends : forall p v, legal_captures_into p v = v ++ legal_captures p.
+Theorem C01_captures_into_appends : forall p v, legal_captures_into p v = v ++ legal_captures p.
 Proof. reflexivity. Qed.
-Theorem C01_partial_noncaptures_into_appends : forall p v, legal_noncaptures_into p v = v ++ legal_noncaptures p.
+Theorem C01_noncaptures_into_appends : forall p v, legal_noncaptures_into p v = v ++ legal_noncaptures p.
 Proof. reflexivity. Qed.
-Theorem C01_partial_count : forall p, count_moves p = N.of_nat (length (legal_moves p)).
+Theorem C01_count : forall p, count_moves p = N.of_nat (length (legal_moves p)).
 Proof. exact count_moves_length. Qed.
-Theorem C01_partial_is_legal : forall p m, is_legal p m = true <-> In m (legal_moves p).
+Theorem C01_is_legal : forall p m, is_legal p m = true <-> In m (legal_moves p).
 Proof. exact is_legal_iff. Qed.
-Theorem C01_partial_labels : forall p m, In m (legal_moves p) -> emitted_ok p m.
+Theorem C01_labels : forall p m, In m (legal_moves p) -> emitted_ok p m.
 Proof. exact legal_moves_emitted_ok. Qed.
-Theorem C01_partial_capture_types : forall p m, In m (legal_captures p) -> is_capturing m = true.
+Theorem C01_capture_types : forall p m, In m (legal_captures p) -> is_capturing m = true.
 Proof. exact legal_captures_capturing. Qed.
-Theorem C01_partial_noncapture_types : forall p m, In m (legal_noncaptures p) -> is_capturing m = false.
+Theorem C01_noncapture_types : forall p m, In m (legal_noncaptures p) -> is_capturing m = false.
 Proof. exact legal_noncaptures_quiet. Qed.
 
 (* MILESTONE 1 (king steps): check_evasions() returns only moves that are legal under the rules and every legal king
    step (king moves other than castling), none twice — on every legal-consistent position, both modes.  By the same
    characterisation the king part of legal_captures / legal_noncaptures is exact (KingFacts.king_target_spec). *)
-Theorem C01_partial_check_evasions_exact : forall dfrc p m, wf p = true -> legal_consistent dfrc (abs p) = true ->
+Theorem C01_check_evasions_exact : forall dfrc p m, wf p = true -> legal_consistent dfrc (abs p) = true ->
   (In m (check_evasions p) <-> (In m (spec_moves (abs p)) /\ is_king_step m = true)).
 Proof. exact check_evasions_exact_lc. Qed.
-Theorem C01_partial_check_evasions_nodup : forall p, NoDup (check_evasions p).
+Theorem C01_check_evasions_nodup : forall p, NoDup (check_evasions p).
 Proof. exact check_evasions_nodup. Qed.
 
 (* MILESTONE 2 (double check): when checkers() has more than one member, legal_moves() is — as a list without
    repetition — exactly the legal moves of the rules: no piece other than the king can move (a non-king move cannot
    remove two checkers: LegalFacts.simple_move_unsafe; nor can en passant: ep_cannot_resolve; castling is excluded),
    and the king part is milestone 1. *)
-Theorem C01_partial_double_check_exact : forall dfrc p, wf p = true -> rooks_ok p -> legal_consistent dfrc (abs p) = true ->
+Theorem C01_double_check_exact : forall dfrc p, wf p = true -> rooks_ok p -> legal_consistent dfrc (abs p) = true ->
   (1 <? bb_count (checkers p)) = true ->
   NoDup (legal_moves p) /\ forall m, In m (legal_moves p) <-> In m (spec_moves (abs p)).
 Proof. exact double_check_exact. Qed.
 
-Print Assumptions C01_partial_double_check_exact.
-Print Assumptions C01_partial_check_evasions_exact. Print Assumptions C01_partial_check_evasions_nodup.
-Print Assumptions C01_partial_split. Print Assumptions C01_partial_into_appends. Print Assumptions C01_partial_count.
-Print Assumptions C01_partial_is_legal. Print Assumptions C01_partial_labels. Print Assumptions C01_partial_capture_types.
-Print Assumptions C01_partial_noncapture_types.
+Print Assumptions C01_legal_moves_exact. Print Assumptions C01_permutation. Print Assumptions C01_count_moves_rules. Print Assumptions C01_domain_closed.
+Print Assumptions C01_double_check_exact.
+Print Assumptions C01_check_evasions_exact. Print Assumptions C01_check_evasions_nodup.
+Print Assumptions C01_split. Print Assumptions C01_into_appends. Print Assumptions C01_count.
+Print Assumptions C01_is_legal. Print Assumptions C01_labels. Print Assumptions C01_capture_types.
+Print Assumptions C01_noncapture_types.
